@@ -97,8 +97,19 @@ func determinismMem(r *Run) {
 		// change with size)
 		size := (1 << 20) + t.Draw(1<<19, "mb-size")
 		data := expandContent(ckRandom, t.Draw64(0, "mb-seed"), size, 64)
-		if !par1Set && size/w.S > 20000 {
-			data = data[:20000*w.S-1]
+		if !par1Set {
+			// stay inside the format's limit of 32768 slices per set
+			others := 0
+			for _, f := range w.Files[1:] {
+				others += (len(f.Data) + w.S - 1) / w.S
+			}
+			room := 30000 - others
+			if room < 1 {
+				room = 1
+			}
+			if (len(data)+w.S-1)/w.S > room {
+				data = data[:room*w.S-1]
+			}
 		}
 		w.Files[0].Data = data
 		base.Put(w.Path(0), data)
@@ -127,8 +138,18 @@ func determinismMem(r *Run) {
 		u := GenWorld(r, GenOpts{Par1: par1Set, MaxFiles: 3, MaxTotal: 8 << 10, MaxR: 4})
 		if t.Bool(1, 4, "unrelated-big") {
 			d := expandContent(ckRandom, t.Draw64(0, "ub-seed"), (1<<20)+t.Draw(1<<18, "ub-size"), 64)
-			if !par1Set && len(d)/u.S > 20000 {
-				d = d[:20000*u.S-1]
+			if !par1Set {
+				others := 0
+				for _, f := range u.Files[1:] {
+					others += (len(f.Data) + u.S - 1) / u.S
+				}
+				room := 30000 - others
+				if room < 1 {
+					room = 1
+				}
+				if (len(d)+u.S-1)/u.S > room {
+					d = d[:room*u.S-1]
+				}
 			}
 			u.Files[0].Data = d
 			u.Disk.Put(u.Path(0), d)
